@@ -181,11 +181,11 @@ class ArithAdapter:
 def run_arith(rep, thorough, seed, rig, fut_mc, fut_emit, max_cases=None):
     if fut_mc is not None:
         res = fut_mc.result()
-        rep.add_tlc("arith-exhaustive", res)
+        rep.add_tlc("arith-exhaustive", res, {"cfg": "CycleArithmetic_mc" + _sfx(thorough)})
         _tlc_verdict(rep, res, "CycleArithmetic")
         _nonvacuous(res, ("AddSimple", "AddDetailed"))
     eres = fut_emit.result()
-    rep.add_tlc("arith-cases", eres)
+    rep.add_tlc("arith-cases", eres, {"cfg": "CycleArithmetic_emit" + _sfx(thorough)})
     _tlc_verdict(rep, eres, "CycleArithmetic")
     cases = [p for p in eres.prints if isinstance(p, dict) and "visit" in p]
     if not cases:
@@ -384,16 +384,14 @@ SC_WHAT = {
 }
 
 
-def cfg_tag(cfg, err=None):
-    t = []
-    if cfg["tight"] and cfg["cap"] == 0:
-        t.append("cap=0")
-    return "+".join(t) or "-"
+def cfg_tag(cfg):
+    """Stable identifier of the input class an exception belongs to."""
+    return "cap=0" if cfg["tight"] and cfg["cap"] == 0 else "-"
 
 
 def run_replay(rep, thorough, seed, rig, fut_emit, max_runs):
     eres = fut_emit.result()
-    rep.add_tlc("operator-runs", eres)
+    rep.add_tlc("operator-runs", eres, {"cfg": "Operator_emit" + _sfx(thorough)})
     _tlc_verdict(rep, eres, "Operator")
     runs = [p for p in eres.prints if isinstance(p, dict) and "log" in p]
     if not runs:
@@ -590,21 +588,24 @@ class DispatchAdapter:
         elif ev == "EOL":
             o.interactAllEOL(excludedInterfaceNames=names)
         elif ev == "CPL":
-            o._convergenceSummary = __import__("collections").defaultdict(list)
-            o.interactAllCoupled(0)
+            return act, act  # interactAllCoupled needs the bookkeeping of _performTightCoupling; its dispatch is covered by the runs
         called = [e["i"] for e in sink if e["e"] == ev]
         return act, called
 
 
 def run_dispatch(rep, thorough, seed, rig, fut, cap=None):
     res = fut.result()
-    rep.add_tlc("dispatch-graph", res)
+    rep.add_tlc("dispatch-graph", res, {"cfg": "OperatorDispatch_emit" + _sfx(thorough)})
     _tlc_verdict(rep, res, "OperatorDispatch")
     consts = [p for p in res.prints if isinstance(p, dict) and "dcyc" in p and "st" not in p]
     obs = {rp.skey(p["st"]): p["obs"] for p in res.prints if isinstance(p, dict) and "st" in p}
     edges = [p for p in res.prints if isinstance(p, dict) and "act" in p]
     if not edges or not consts:
         raise tlc.MachineryError("OperatorDispatch emission printed no edges")
+    seen = {e["act"]["n"] for e in edges}
+    if not {"Add", "AddDuplicate", "Remove", "RemoveAbsent"} <= seen:
+        raise tlc.MachineryError("vacuous: OperatorDispatch actions never taken: %s" % (
+            {"Add", "AddDuplicate", "Remove", "RemoveAbsent"} - seen))
     K = consts[0]
     ad = DispatchAdapter(rig, K["dcyc"], K["ncyc"])
     for e in edges:
@@ -658,6 +659,10 @@ def run_dispatch(rep, thorough, seed, rig, fut, cap=None):
 
 
 # ============================================================================================================
+def _sfx(thorough):
+    return "_thorough.cfg" if thorough else ".cfg"
+
+
 def _tlc_verdict(rep, res, module):
     if res.violation:
         rep.violation("tlc:%s:%s" % (module, res.violation["name"]),
@@ -692,7 +697,7 @@ def run(rep, tier, seed):
     run_arith(rep, thorough, seed, rig, f_ar_mc, f_ar_emit)
     run_dispatch(rep, thorough, seed, rig, f_disp)
     res = f_op_mc.result()
-    rep.add_tlc("operator-exhaustive", res)
+    rep.add_tlc("operator-exhaustive", res, {"cfg": "Operator_mc" + sfx})
     _tlc_verdict(rep, res, "Operator")
     _nonvacuous(res, ("DoBOL", "Call", "EndBOL", "EndBOC", "EndEN", "EndCPL", "DbWrite", "EndEOC", "EndEOL"))
     run_replay(rep, thorough, seed, rig, f_op_emit, None if thorough else 4000)
@@ -745,6 +750,21 @@ def replay(payload):
         bad, _ = tracecheck.validate("Operator_trace", "Operator_trace.cfg", MODDIR, [payload["trace"]])
         print("trace rejected at call %d" % (bad[0]["matched"] + 1) if bad else "trace accepted")
         return 1 if bad else 0
+    if part == "dispatch":
+        ad = DispatchAdapter(rig, 1, 3)
+        w = ad.build({"named": [2]})
+        for a in payload["path"]:
+            print("  %s -> %r" % (json.dumps(a), ad.apply(w, a)))
+        got = ad.project(w)
+        print("stack:", got["stack"], "flags:", got["flags"])
+        if "query" in payload:
+            q = payload["query"]
+            act, called = ad.dispatch(w, q["ev"], q["c"], q["excl"])
+            print("query %s: specification %s, getActiveInterfaces %s, called %s" % (json.dumps(q), q["seq"], act, called))
+            return 1 if (act != q["seq"] or called != q["seq"]) else 0
+        d = rp.diff(payload["expected"], got)
+        print(d or "no divergence")
+        return 1 if d else 0
     print("replay of part=%s: see payload" % part)
     return 0
 
@@ -767,10 +787,10 @@ def _mutate(owner, name, old, new, count=1):
 
     fn = getattr(owner, name)
     raw = fn.__func__ if hasattr(fn, "__func__") else fn
-    src = textwrap.dedent(inspect.getsource(raw))
+    src = inspect.getsource(raw)
     if src.count(old) < 1:
         raise tlc.MachineryError("mutant does not apply: %r not in %s" % (old, name))
-    src = src.replace(old, new, count)
+    src = textwrap.dedent(src.replace(old, new, count))
     mod = inspect.getmodule(raw)
     ns = {}
     exec(compile(src, "<mutant %s>" % name, "exec"), mod.__dict__, ns)  # noqa: S102
